@@ -369,7 +369,7 @@ func (g *Gen) govOp() Step {
 	case kind < 7:
 		k = "gov_create"
 		if exists && !bad {
-			gs.Denom = pickStr(g, "ddd", "eee")
+			gs.Denom = pickStr(g, "ddd", "eee", "eee", BondDenom)
 		}
 	case kind < 8:
 		k = "gov_delete"
